@@ -134,6 +134,12 @@ func genTarSpec(t *T, small, big int, maxEntries int) *tarSpec {
 	c := t.C
 	sp := &tarSpec{files: map[string]tarEntry{}, dirs: map[string]*hackpadfs.FileMode{}}
 	alpha := []string{"a", "b", "c", "d"}
+	if c.Chance(1, 6) {
+		// odd but valid element names: ordinary bytes, never separators
+		// (ASCII only: a multi-byte name makes archive/tar emit PAX records, and the header-corruption fault
+		// computes header offsets for plain USTAR entries)
+		alpha = []string{"a", `a\b`, "a:b", "a b"}
+	}
 	n := 1 + c.Draw(maxEntries)
 	sizes := []int{0, 1, small - 1, small, small + 1, big + 1, 2*big + 7, 100}
 	perms := []hackpadfs.FileMode{0644, 0600, 0755, 0444, 0700, 0555}
